@@ -1,4 +1,4 @@
-import LoguruModel.Rotation.Parsers
+import LoguruModel.Rotation.Spec
 import LoguruModel.Driver
 /-! line-protocol driver of the Rotation area (C07, C19); see harness/c07.py for the grammar -/
 open Rotation Py
@@ -116,7 +116,9 @@ def step (line : String) : String :=
     match z.toInt? with
     | some z =>
       match Calendar.civilOfDays z with
-      | (y, m, d) => s!"{y} {m} {d} {Calendar.weekdayOfDays z} {Calendar.daysOfCivil y m d}"
+      | (y, m, d) =>
+        -- also the two month starts `CalendarMonthFact` speaks about
+        s!"{y} {m} {d} {Calendar.weekdayOfDays z} {Calendar.daysOfCivil y m d} {monthStart (12 * y + m - 1) / 86400000000} {monthStart (12 * y + m) / 86400000000}"
     | none => "bad-op"
   | _ => "bad-op"
 
